@@ -22,32 +22,15 @@ MODULES = ["c01", "c02", "c03", "c04", "c05_zz", "c05_pp", "c06", "c08", "c10", 
 SANITIZER_PREFIXES = ("asan:", "ubsan:", "assert:", "signal:", "fill-diff:", "memcheck:")
 
 
-def collect(tier, scale):
-    out, missing = [], []
-    for m in MODULES:
-        try:
-            mod = importlib.import_module("vlib.checks." + m)
-        except Exception as e:
-            missing.append("%s (%s)" % (m, type(e).__name__))
-            continue
-        try:
-            js = mod.jobs(tier, scale)
-        except Exception as e:
-            missing.append("%s.jobs (%s)" % (m, e))
-            continue
-        for j in js:
-            if "selftest" in j["unit"]:
-                continue
-            j = dict(j)
-            j.pop("cfg", None)
-            out.append(j)
-    return out, missing
+from .replayset import collect as _collect
 
 
 def main(run):
     q = run.tier == "quick"
     scale = 0.05 if q else 0.25
-    base, missing = collect("quick", scale)
+    every = {"c13": 8, "c16": 6, "c02": 5, "c17": 4, "c01": 3, "c05_zz": 3, "c05_pp": 2, "c06": 6, "c12": 4, "c08": 2, "c04": 2} if q else \
+            {"c13": 2, "c16": 2, "c06": 2}
+    base, missing = _collect(MODULES, "quick", scale, every, run.seed)
     js = []
     for j in base:
         js.append(dict(j, cfg="asan64", fill=0xA5))
@@ -59,7 +42,7 @@ def main(run):
     run.coverage_extra["replayed_modules_missing"] = missing
     run.coverage_extra["replayed_jobs"] = len(base)
     run.run_jobs(js, timeout=3000)
-    compared = run.compare_digests("fill-diff", "scratch fill pattern influences the results")
+    compared = run.compare_digests("fill-diff", "scratch fill pattern influences the results", ref="asan64", same_cfg=True)
     run.coverage_extra["two_fill_cases_compared"] = compared
     # keep only what C07 states
     tallied = {}
